@@ -1,6 +1,6 @@
 (* Props/C06.v — property C06: divergences and dependence coefficients equal their definitions and axioms. *)
 From Verif Require Import Info.
-From Verif Require Import Measures C06_Model Info_Proofs C06_Proofs.
+From Verif Require Import Measures C06_Model Info_Proofs C06_Proofs C06_JSD.
 From Coq Require Import Permutation.
 Open Scope R_scope.
 
@@ -60,3 +60,31 @@ Print Assumptions C06_hellinger_sq_range.
 Theorem C06_emd_weak_duality : forall c p q u f, flow_ok c p q f -> (dual_bound c p q u <= flow_cost c f)%Q.
 Proof. exact emd_weak_duality. Qed.
 Print Assumptions C06_emd_weak_duality.
+
+(* ------------------------------------------------------------------------------------------ *)
+(* Jensen-Shannon divergence with arbitrary weights (Proofs/C06_JSD.v): between 0 and the entropy of the
+   weights for every weighted family of aligned pmfs, 0 for a family of equal pmfs; and the value the model
+   assigns to jsd(ds, ws) is that quantity on the rows obtained by looking every distribution up on the
+   union of the stored outcomes (matching by label) *)
+Theorem C06_jsd_nonneg : forall ws rows n, fam_ok ws rows n -> 0 <= jsd_r ws rows n.
+Proof. exact jsd_nonneg. Qed.
+Print Assumptions C06_jsd_nonneg.
+
+Theorem C06_jsd_le_entropy_of_weights : forall ws rows n, fam_ok ws rows n -> jsd_r ws rows n <= entropy_list ws.
+Proof. exact jsd_le_entropy_weights. Qed.
+Print Assumptions C06_jsd_le_entropy_of_weights.
+
+Theorem C06_jsd_self : forall ws rows n p0, fam_ok ws rows n -> (forall p, In p rows -> p = p0) -> jsd_r ws rows n = 0.
+Proof. exact jsd_self. Qed.
+Print Assumptions C06_jsd_self.
+
+Theorem C06_jsd_model_value : forall ds ws r,
+  Forall Entropy_Bridge.clean ds -> Forall full_len ds -> jsd ds ws = XVal r ->
+  rden r = jsd_r ws (jsd_rows ds) (length (jsd_keys ds)).
+Proof. exact jsd_model_value. Qed.
+Print Assumptions C06_jsd_model_value.
+
+Theorem C06_jsd_model_bounds : forall ds ws r,
+  jsd_input_ok ds ws -> jsd ds ws = XVal r -> 0 <= rden r <= entropy_list ws.
+Proof. exact jsd_model_bounds. Qed.
+Print Assumptions C06_jsd_model_bounds.
